@@ -283,6 +283,12 @@ func c12AddRegexAndJoin(r *rand.Rand, s *gen.Scenario) {
 	for k := 0; k < n; k++ {
 		facts = append(facts, ast.P("parent", ast.Str(names[k]), ast.Str(names[k+1])))
 	}
+	// a three-way join over three different predicates (the middle atom shares a variable with
+	// each neighbour): which fact is supplied last decides where the enumerator carries
+	rr, uu := ast.Var("r"), ast.Var("uu")
+	facts = append(facts, ast.P("j_resource", ast.Str("file1")), ast.P("j_resource", ast.Str("file2")), ast.P("j_owner", ast.Str("bob"), ast.Str("file1")),
+		ast.P("j_owner", ast.Str("ann"), ast.Str("file2")), ast.P("j_user", ast.Str("bob")), ast.P("j_user", ast.Str("ann")))
+	rules = append(rules, ast.Rule{Head: ast.P("j_can", uu, rr), Body: []ast.Pred{ast.P("j_resource", rr), ast.P("j_owner", uu, rr), ast.P("j_user", uu)}})
 	g, p, ch, x := ast.Var("g"), ast.Var("p"), ast.Var("c"), ast.Var("x")
 	rules = append(rules,
 		ast.Rule{Head: ast.P("grandparent", g, ch), Body: []ast.Pred{ast.P("parent", g, p), ast.P("parent", p, ch)}},
@@ -300,11 +306,64 @@ func c12AddRegexAndJoin(r *rand.Rand, s *gen.Scenario) {
 		ast.Rule{Head: ast.P("probe_re_user", v0), Body: []ast.Pred{ast.P("re_hit_user", v0)}},
 		ast.Rule{Head: ast.P("probe_re_host", v0), Body: []ast.Pred{ast.P("re_hit_host", v0)}},
 		ast.Rule{Head: ast.P("probe_grandparent", v0, v1), Body: []ast.Pred{ast.P("grandparent", v0, v1)}},
-		ast.Rule{Head: ast.P("probe_great", v0, v1), Body: []ast.Pred{ast.P("great", v0, v1)}})
+		ast.Rule{Head: ast.P("probe_great", v0, v1), Body: []ast.Pred{ast.P("great", v0, v1)}},
+		ast.Rule{Head: ast.P("probe_j_can", v0, v1), Body: []ast.Pred{ast.P("j_can", v0, v1)}},
+		ast.Rule{Head: ast.P("probe_j_direct", v0, v1), Body: []ast.Pred{ast.P("j_resource", v1), ast.P("j_owner", v0, v1), ast.P("j_user", v0)}})
+}
+
+// c12JoinOnly: nothing but stated facts (no rule, so nothing derived is appended behind them), one
+// check and one query that join three different predicates. The same six facts are supplied in
+// six different orders, through the authority block or through the authorizer: same outcome,
+// same answers. (With rules in play a combination missed in one pass is found in the next.)
+func c12JoinOnly(c *core.C) {
+	r := c.R
+	rr, uu := ast.Var("r"), ast.Var("u")
+	facts := []ast.Pred{ast.P("j_resource", ast.Str("file1")), ast.P("j_resource", ast.Str("file2")), ast.P("j_owner", ast.Str("bob"), ast.Str("file1")),
+		ast.P("j_owner", ast.Str("ann"), ast.Str("file2")), ast.P("j_user", ast.Str("bob")), ast.P("j_user", ast.Str("ann"))}
+	join := []ast.Pred{ast.P("j_resource", rr), ast.P("j_owner", uu, rr), ast.P("j_user", uu)}
+	wantUser := gen.Pick(r, []string{"bob", "ann"})
+	check := ast.Check{Queries: []ast.Rule{{Head: ast.P("query"), Body: []ast.Pred{ast.P("j_resource", rr), ast.P("j_owner", ast.Str(wantUser), rr), ast.P("j_user", ast.Str(wantUser))}}}}
+	probes := []ast.Rule{{Head: ast.P("probe_join", uu, rr), Body: join}}
+	inAuthority := r.Intn(2) == 0
+	var first lib.Obs
+	var firstOrder []string
+	for k := 0; k < 6; k++ {
+		order := shuffled(r, facts)
+		blocks := []ast.Block{{Facts: []ast.Pred{ast.P("filler", ast.Int(int64(c.Idx)))}}}
+		a := ast.AuthContent{Checks: []ast.Check{check}, Policies: []ast.Policy{allowAll}}
+		if inAuthority {
+			blocks[0].Facts = order
+		} else {
+			a.Facts = order
+		}
+		tok, err := buildScenarioToken(c.Seed, fmt.Sprintf("c12j-%d-%d", c.Idx, k), blocks)
+		if err != nil {
+			c.Violate("build-refused", err.Error(), nil)
+			return
+		}
+		o := lib.Observe(tok.B, tok.Pub, a, probes)
+		c.Eval(1)
+		keys := ast.FactSetKeys(order)
+		if k == 0 {
+			first, firstOrder = o, keys
+			if o.Class != lib.OK {
+				c.Violate("join-only-control", fmt.Sprintf("control order refused: %s %s", o.Class, o.Err), map[string]any{"order": keys})
+				return
+			}
+			continue
+		}
+		if o.Class != first.Class || core.JSON(o.Queries) != core.JSON(first.Queries) {
+			c.Violate("presentation-changes-outcome/fact-order-three-way-join", fmt.Sprintf("order %v: %s %v; order %v: %s %v", firstOrder, first.Class, first.Queries, keys, o.Class, o.Queries),
+				map[string]any{"in_authority": inAuthority, "first_order": firstOrder, "order": keys, "first": first, "observed": o})
+		}
+		c.NT("join-only/" + strings.Join(keys, ","))
+	}
+	c.Count("join_only_groups", 1)
 }
 
 func c12Run(c *core.C) {
 	r := c.R
+	c12JoinOnly(c)
 	for rep := 0; rep < 3; rep++ {
 		s := gen.NewScenario(r, 3, scenOpts)
 		c12AddRuleChain(r, s)
@@ -482,6 +541,17 @@ func c13Run(c *core.C) {
 					content.Facts = nil // a request that states less than the previous one
 				}
 			}
+			if r.Intn(4) == 0 {
+				// a check whose expression fails half-way, with an operand still waiting on the
+				// evaluation stack (1 < 1000 / 0;  40, !2): this round is refused, and whatever the
+				// failed evaluation leaves behind must not reach the rounds that follow
+				bad := []ast.Expr{
+					{ast.OV(ast.Int(1)), ast.OV(ast.Int(1000)), ast.OV(ast.Int(0)), ast.OB(int(ast.BDiv)), ast.OB(int(ast.BLessThan))},
+					{ast.OV(ast.Int(40)), ast.OV(ast.Int(2)), ast.OU(int(ast.UNegate)), ast.OB(int(ast.BAdd)), ast.OV(ast.Int(0)), ast.OB(int(ast.BGreaterThan))},
+				}[r.Intn(2)]
+				content.Checks = append(append([]ast.Check{}, content.Checks...), ast.Check{Queries: []ast.Rule{{Head: ast.P("query"), Exprs: []ast.Expr{bad}}}})
+				c.Count("rounds_with_half_way_failing_expression", 1)
+			}
 			mode := r.Intn(4) // 0 authorize, 1 query then authorize, 2 query only, 3 nothing (add, then Reset)
 			// how the content reaches the authorizer
 			entry := r.Intn(4) // 0,1 Add*; 2 AddAuthorizer(parsed text) when printable; 3 LoadPolicies(snapshot)
@@ -571,6 +641,14 @@ func c13Run(c *core.C) {
 			} else if core.JSON(got.Queries) != core.JSON(want.Queries) {
 				c.Violate("reset-leaks/query-results", fmt.Sprintf("round %d: query results of the reused authorizer differ from a fresh one", n), desc)
 			}
+			// a leak that sits outside the authorizer (process-wide state written by an earlier
+			// round) reaches the fresh authorizer as well: the outcome is also held against the
+			// reference decision procedure for this round's content alone
+			if mode <= 1 && limitTag == "large limits" {
+				if dn := ref.Authorize(tok.Blocks, content); dn.Class != "" && string(got.Class) != dn.Class && got.Class == want.Class {
+					c.Violate("reset-leaks/outcome-differs-from-decision-procedure", fmt.Sprintf("round %d: reused and fresh authorizer both say %s, the decision procedure on this round's content alone says %s (%s)", n, got.Class, dn.Class, dn.Signature), desc)
+				}
+			}
 			// leak sensitivity, measured with the reference authorizer
 			if n > 0 {
 				dn := ref.Authorize(tok.Blocks, content)
@@ -619,6 +697,21 @@ func c18Run(c *core.C) {
 			}
 			f.Terms = append(f.Terms, gen.SetOf(r, gen.Pick(r, gen.ScalarKinds), 1+r.Intn(3), true))
 			content.Facts = append(append([]ast.Pred{}, content.Facts...), f)
+		}
+		if r.Intn(2) == 0 {
+			// date constants before 1970 (negative Unix time) and in the year 9999 inside checks and
+			// policies: they travel through the snapshot like any other constant
+			neg := func(sec int64) ast.Term { return ast.Date(uint64(sec)) }
+			dv := ast.Var("d")
+			y1955, y1960, y9999 := neg(-473385600), neg(-315619200), ast.Date(253402300799)
+			cmp := func(op int, k ast.Term) ast.Rule {
+				return ast.Rule{Head: ast.P("query"), Body: []ast.Pred{ast.P("founded", dv)}, Exprs: []ast.Expr{{ast.OV(dv), ast.OV(k), ast.OB(op)}}}
+			}
+			content.Facts = append(append([]ast.Pred{}, content.Facts...), ast.P("founded", y1955))
+			content.Checks = append(append([]ast.Check{}, content.Checks...), ast.Check{Queries: []ast.Rule{cmp(int(ast.BLessThan), y1960)}})
+			_ = y9999 // (a date before 1970 is a wrapped unsigned number of seconds on the wire and in the engine: it does not compare below later dates, which is how the schema defines dates, so no check on that)
+			content.Policies = append([]ast.Policy{{Allow: false, Queries: []ast.Rule{cmp(int(ast.BGreaterThan), y1960)}}}, content.Policies...)
+			c.Count("contents_with_dates_before_1970", 1)
 		}
 		if r.Intn(2) == 0 {
 			// a set written with a repeated member (the builders accept it): the snapshot must give
